@@ -75,7 +75,25 @@ def line_kinds():
     return kinds, png
 
 
+SPELLINGS = {
+    # name: (prefix, separator after "#include", suffix before the line end, line end)
+    'lead-space': (b' ', b' ', b'', b'\n'),
+    'lead-tab': (b'\t', b' ', b'', b'\n'),
+    'lead-spaces': (b'    ', b' ', b'', b'\n'),
+    'two-spaces': (b'', b'  ', b'', b'\n'),
+    'tab-separator': (b'', b'\t', b'', b'\n'),
+    'trailing-space': (b'', b' ', b' ', b'\n'),
+    'crlf': (b'', b' ', b'', b'\r\n'),
+    'lead-tab-trailing-tab': (b'\t\t', b' ', b'\t', b'\n'),
+}
+
+
 def line_text(kind):
+    if kind[0] == 'sp':
+        pre, sep, suf, nl = SPELLINGS[kind[1]]
+        std = line_text(kind[2])
+        assert std.startswith(b'#include ') and std.endswith(b'\n')
+        return pre + b'#include' + sep + std[len(b'#include '):-1] + suf + nl
     if kind[0] == 'plain':
         return kind[1]
     if kind[0] in ('lua', 'missing'):
@@ -87,6 +105,8 @@ def line_text(kind):
 
 def expected_lines(kind):
     """What the include line must be replaced with (None = load must fail)."""
+    if kind[0] == 'sp':
+        return expected_lines(kind[2])
     if kind[0] == 'plain':
         return [kind[1]], False
     if kind[0] == 'missing':
@@ -115,6 +135,8 @@ def setup_dir():
 
 
 def kind_class(kind):
+    if kind[0] == 'sp':
+        return 'spelled-%s:%s' % (kind[1], kind_class(kind[2]))
     if kind[0] in ('p8', 'png'):
         return '%s:%s' % (kind[0], 'whole' if kind[2] is None else ('tab%d' % kind[2]))
     return kind[0] if kind[0] != 'lua' else 'lua:' + kind[1]
@@ -124,7 +146,7 @@ def check_cart(d, kinds, res):
     from pico8.game import file as p8file
     res.evaluations += 1
     lines = [line_text(k) for k in kinds]
-    case = {'lines': [l for l in lines], 'kinds': [list(k) if not isinstance(k[1], bytes) else [k[0], k[1]] for k in kinds]}
+    case = {'lines': [l for l in lines], 'kinds': [kind_class(k) for k in kinds]}
     if any(k[0] != 'plain' for k in kinds):
         res.nontriv(tuple(lines))
     path = os.path.join(d, 'main.p8')
@@ -157,7 +179,7 @@ def check_cart(d, kinds, res):
     got = b''.join(g.lua.to_lines())
     exp = b''.join(want)
     ok = got == exp
-    if not ok and any(k[0] == 'png' for k in kinds):
+    if not ok and any(k[0] == 'png' or (k[0] == 'sp' and k[2][0] == 'png') for k in kinds):
         # tolerate one extra trailing newline per included .p8.png code
         ok = tolerant_equal(got, kinds)
     if not ok:
@@ -170,6 +192,8 @@ def check_cart(d, kinds, res):
 def variants(kind):
     """Acceptable byte strings for one line. A .p8.png include whose selection reaches the end of the included code
     may carry one extra newline (the PNG reader appends one to raw code; C04 owns that normalisation)."""
+    if kind[0] == 'sp':
+        return variants(kind[2])
     el, _ = expected_lines(kind)
     base = b''.join(el)
     out = [base]
@@ -222,9 +246,28 @@ def sequences(tier):
             yield seq
 
 
+def spelled_sequences(tier):
+    """Every include kind in every spelling the recogniser accepts (blanks before `#include`, blanks / TAB after it,
+    trailing blanks, CR LF), alone, between plain lines, and next to another (differently spelled) include."""
+    base, png = line_kinds()
+    plain = base[0]
+    incs = [k for k in base + png if k[0] != 'plain']
+    names = sorted(SPELLINGS)
+    for i, k in enumerate(incs):
+        for j, sp in enumerate(names):
+            sk = ('sp', sp, k)
+            yield (sk,)
+            yield (plain, sk, plain)
+            other = ('sp', names[(j + 3) % len(names)], incs[(i + 5) % len(incs)])
+            yield (sk, other)
+            if tier == 'thorough':
+                yield (other, plain, sk)
+                yield (('lua', 'inc.lua'), sk)
+
+
 def shards(tier, seed):
     n = 32 if tier == 'quick' else 128
-    return [('seqs', tier, k, n) for k in range(n)] + [('resave',)]
+    return [('seqs', tier, k, n) for k in range(n)] + [('resave',)] + [('spelled', tier, k, 4) for k in range(4)]
 
 
 def resave_history(res):
@@ -268,10 +311,10 @@ def run_shard(item):
         resave_history(res)
         res.sample({'history': 'load; re-save inc.lua, inc2.p8, inc0.p8.png with new code; load again (x3)'})
         return res
-    _, tier, k, n = item
+    kind_, tier, k, n = item
     d = setup_dir()
     try:
-        for i, seq in enumerate(sequences(tier)):
+        for i, seq in enumerate(spelled_sequences(tier) if kind_ == 'spelled' else sequences(tier)):
             if i % n != k:
                 continue
             check_cart(d, seq, res)
@@ -291,6 +334,10 @@ def replay(case):
     base, png = line_kinds()
     allk = base + png
     by_text = {line_text(k): k for k in allk}
+    for k in allk:
+        if k[0] != 'plain':
+            for sp in SPELLINGS:
+                by_text[line_text(('sp', sp, k))] = ('sp', sp, k)
     kinds = [by_text[l] for l in case['lines']]
     d = setup_dir()
     try:
